@@ -1684,9 +1684,12 @@ def run(tier):
     n = 350 if tier == "quick" else 4000
     cases, feats = generated_cases(r, n, 4 if tier == "quick" else 5)
     chk.extra["generator_features"] = feats
-    obs = evaluate(chk, cases, model_ok, "generated")
-    for c, o in list(zip(cases, obs))[:3]:
-        chk.sample({"files": c["files"], "stage": o["stage"], "s1_errors": o.get("s1_errors", [])[:2]}, limit=3)
+    for k in range(0, len(cases), 400):      # chunks: the observed IRs are kept until the model answered
+        obs = evaluate(chk, cases[k:k + 400], model_ok, "generated")
+        if k == 0:
+            for c, o in list(zip(cases, obs))[:3]:
+                chk.sample({"files": c["files"], "stage": o["stage"],
+                            "s1_errors": o.get("s1_errors", [])[:2]}, limit=3)
     return chk.finish()
 
 
